@@ -1,9 +1,8 @@
 (** Property C18, second sentence: prototype records in an extension namespace.
-    A record element whose namespace has a prefix in scope and whose local name is not one of
-    the twenty standard names is reported as [Unknown prefix name] with its data type; adding
-    such an element to a prototype leaves the other records as they were, in the same order.
-    A record element in an extension namespace whose LOCAL name is a standard name is reported
-    as the standard record (refutation: the namespace is ignored). *)
+    A record element whose namespace has a prefix in scope and which is in a foreign namespace
+    (any local name, also a standard one) or has a local name that is not one of the twenty
+    standard names is reported as [Unknown prefix name] with its data type; adding such an
+    element to a prototype leaves the other records as they were, in the same order. *)
 From Coq Require Import Strings.String.
 From Coq Require Import List Bool NArith ZArith.
 From E57 Require Import Base.Prelude Model.Meta Model.MetaFile Model.XmlTree Model.XmlExtract
@@ -31,16 +30,25 @@ Qed.
 Section Ext.
 Variables pf64 pf32 : xstr -> option N.
 
-(** an element in namespace [uri], for which a prefix [p] is in scope, with a non-standard local name *)
+(** a namespace that is neither empty nor the E57 namespace *)
+Definition foreign_uri (uri : xstr) : bool := negb (is_empty uri) && negb (xstr_eqb uri E57_NAMESPACE).
+
+(** an element in namespace [uri], for which a prefix [p] is in scope, in a foreign namespace or
+    with a non-standard local name *)
 Theorem record_unknown uri p local attrs sc ch :
   lookup_prefix uri (XElem (mkXName (Some uri) local) attrs sc ch) = Some p ->
-  std_record_name local = false ->
+  foreign_uri uri = true \/ std_record_name local = false ->
   record_from_node pf64 pf32 (XElem (mkXName (Some uri) local) attrs sc ch) =
   res_map (mkRecord (Unknown p local))
           (data_type_from_node pf64 pf32 (XElem (mkXName (Some uri) local) attrs sc ch)).
 Proof.
   intros Hp Hs. unfold record_from_node. cbn [xn_ns xn_local]. rewrite Hp.
-  rewrite (record_name_of_unknown _ _ Hs).
+  assert ((if is_empty uri || xstr_eqb uri E57_NAMESPACE
+           then record_name_of (Some p) local else Unknown p local) = Unknown p local) as ->.
+  { destruct Hs as [Hf|Hs].
+    - unfold foreign_uri in Hf. apply andb_true_iff in Hf. destruct Hf as [H1 H2].
+      apply negb_true_iff in H1. apply negb_true_iff in H2. rewrite H1, H2. reflexivity.
+    - rewrite (record_name_of_unknown _ _ Hs). destruct (is_empty uri || xstr_eqb uri E57_NAMESPACE); reflexivity. }
   destruct (data_type_from_node pf64 pf32 _); reflexivity.
 Qed.
 
@@ -72,7 +80,7 @@ Qed.
 Theorem extension_records nm a sc ch1 ch2 r1 r2 uri p local attrs esc ech dt :
   let e := XElem (mkXName (Some uri) local) attrs esc ech in
   lookup_prefix uri e = Some p ->
-  std_record_name local = false ->
+  foreign_uri uri = true \/ std_record_name local = false ->
   data_type_from_node pf64 pf32 e = Ok dt ->
   map_res (record_from_node pf64 pf32) (filter is_element ch1) = Ok r1 ->
   map_res (record_from_node pf64 pf32) (filter is_element ch2) = Ok r2 ->
@@ -87,10 +95,6 @@ Qed.
 End Ext.
 
 (** * A whole document: a registered extension record among standard ones *)
-Definition sc_reg : list xnsdecl := [mkXNs (Some (B"ext")) EXT_NS; mkXNs None E57_NS].
-Definition stdr (local : xstr) (attrs : list xattr) (ch : list xnode) : xnode :=
-  XElem (mkXName (Some E57_NS) local) attrs sc_reg ch.
-Definition int_record (nm : xnode -> xnode) : xnode := nm (XText (B"0")).
 Definition rec_std (local : xstr) : xnode :=
   stdr local [tattr (B"Integer"); pattr (B"minimum") (B"0"); pattr (B"maximum") (B"255")] [].
 Definition rec_ext (local : xstr) : xnode :=
@@ -107,6 +111,10 @@ Definition doc_with_proto (records : list xnode) : xdoc :=
           [stdr (B"points") [tattr (B"CompressedVector"); pattr (B"fileOffset") (B"48"); pattr (B"recordCount") (B"3")]
              [stdr (B"prototype") [tattr (B"Structure")] records]]]]].
 
+Definition d_proto_std : xdoc := doc_with_proto [rec_std (B"colorRed"); rec_std (B"colorBlue")].
+Definition d_proto_ext : xdoc := doc_with_proto [rec_std (B"colorRed"); rec_ext (B"quality"); rec_std (B"colorBlue")].
+Definition d_proto_ext_std_name : xdoc := doc_with_proto [rec_ext (B"cartesianX"); rec_std (B"cartesianX")].
+
 Definition first_prototype (r : res file_meta) : option (list record) :=
   match r with
   | Ok m => match fm_pointclouds m with pc :: _ => Some (pc_prototype pc) | [] => None end
@@ -117,23 +125,25 @@ Definition extensions_of (r : res file_meta) : option (list extension) :=
   match r with Ok m => Some (fm_extensions m) | _ => None end.
 
 Example extension_record_document :
-  forall pf64 pf32,
-    first_prototype (extract_all pf64 pf32 (doc_with_proto [rec_std (B"colorRed"); rec_std (B"colorBlue")])) =
+  forall pf64 pf32 fdiv,
+    first_prototype (extract_all pf64 pf32 fdiv (doc_with_proto [rec_std (B"colorRed"); rec_std (B"colorBlue")])) =
       Some [mkRecord ColorRed (DInteger 0 255); mkRecord ColorBlue (DInteger 0 255)] /\
-    first_prototype (extract_all pf64 pf32
+    first_prototype (extract_all pf64 pf32 fdiv
                        (doc_with_proto [rec_std (B"colorRed"); rec_ext (B"quality"); rec_std (B"colorBlue")])) =
       Some [mkRecord ColorRed (DInteger 0 255);
             mkRecord (Unknown (B"ext") (B"quality")) (DInteger (-5) 5);
             mkRecord ColorBlue (DInteger 0 255)] /\
-    extensions_of (extract_all pf64 pf32 (doc_with_proto [])) = Some [mkExtension (B"ext") EXT_NS].
-Proof. intros pf64 pf32. repeat split; vm_compute; reflexivity. Qed.
+    extensions_of (extract_all pf64 pf32 fdiv (doc_with_proto [])) = Some [mkExtension (B"ext") EXT_NS].
+Proof. intros pf64 pf32 fdiv. repeat split; vm_compute; reflexivity. Qed.
 
-(** * Refutation: an extension record whose local name is a standard name loses its namespace *)
-Theorem extension_std_name_refuted :
-  forall pf64 pf32,
+(** * An extension record whose local name is a standard name keeps its namespace
+    (this was a defect of the pinned tree, repaired in /repo by 6545e7e) *)
+Theorem extension_std_name_kept :
+  forall pf64 pf32 fdiv,
     std_record_name (B"cartesianX") = true /\
     lookup_prefix EXT_NS (rec_ext (B"cartesianX")) = Some (B"ext") /\
-    record_from_node pf64 pf32 (rec_ext (B"cartesianX")) = Ok (mkRecord CartesianX (DInteger (-5) 5)) /\
-    first_prototype (extract_all pf64 pf32 (doc_with_proto [rec_ext (B"cartesianX")])) =
-      Some [mkRecord CartesianX (DInteger (-5) 5)].
-Proof. intros pf64 pf32. repeat split; vm_compute; reflexivity. Qed.
+    record_from_node pf64 pf32 (rec_ext (B"cartesianX")) =
+      Ok (mkRecord (Unknown (B"ext") (B"cartesianX")) (DInteger (-5) 5)) /\
+    first_prototype (extract_all pf64 pf32 fdiv (doc_with_proto [rec_ext (B"cartesianX"); rec_std (B"cartesianX")])) =
+      Some [mkRecord (Unknown (B"ext") (B"cartesianX")) (DInteger (-5) 5); mkRecord CartesianX (DInteger 0 255)].
+Proof. intros pf64 pf32 fdiv. repeat split; vm_compute; reflexivity. Qed.
